@@ -10,6 +10,9 @@ NAMES = [
 PAIR_NAMES = ["WA", "WB", "RA0", "RB0", "CFG", "CFGB", "SA0", "RAx"]
 
 
+HIGH_IDS = {1: 254, 2: 253}
+
+
 class C07Spec(explore.Spec):
     prop = PROP
 
@@ -23,11 +26,23 @@ class C07Spec(explore.Spec):
             out += [{"version": "2.2", "cb": None, "flavour": "async"}, {"version": "2.1", "cb": None, "transport": "mqtt"}]
         # persistence on: a periodic save, or a stop + fresh start (nodes restored from the file), at any position
         out += [{"version": "2.2", "cb": None, "persistence": fmt, "depth": 3 if tier == "quick" else 4} for fmt in ("pickle", "json")]
+        # boundary node ids: A = 254 (the highest valid id), B = 253 - the same alphabet, renamed
+        out.append({"version": "2.2" if tier == "quick" else "2.0", "cb": None, "ids": "high", "depth": 4 if tier == "quick" else 5})
+        if tier == "thorough":
+            out.append({"version": "2.2", "cb": None, "ids": "high", "depth": 5})
         # link faults: a write fails (the line is lost, the link is replaced) while traffic is held back / released
         out.append({"version": "2.2", "cb": None, "focus": "link", "depth": 5 if tier == "quick" else 7})
         return out
 
     def alphabet(self, cfg):
+        evs = self._alphabet(cfg)
+        return alpha.remap_nodes(evs, HIGH_IDS) if cfg.get("ids") == "high" else evs
+
+    def roots(self, cfg):
+        roots = self._roots(cfg)
+        return [tuple(alpha.remap_nodes(r, HIGH_IDS)) for r in roots] if cfg.get("ids") == "high" else roots
+
+    def _alphabet(self, cfg):
         v = cfg["version"]
         if cfg.get("focus") == "link":
             return alpha.events(v, ["WA", "CFG", "RA0", "CFGB", "WB"]) + [("set", 1, 0, 2, "0"), ("writefail",), ("reconnect",)]
@@ -49,7 +64,7 @@ class C07Spec(explore.Spec):
             evs += [("tick",), ("restart",)]
         return evs
 
-    def roots(self, cfg):
+    def _roots(self, cfg):
         t = alpha.lines(cfg["version"])
         return [
             (),
@@ -65,7 +80,7 @@ class C07Spec(explore.Spec):
         t = alpha.lines(cfg["version"])
         viols = []
         world.close()
-        if len(hist) > 9 or cfg.get("persistence") or cfg.get("focus"):
+        if len(hist) > 9 or cfg.get("persistence") or cfg.get("focus") or cfg.get("ids"):
             return viols  # the pair schedule is applied in every state up to this history length
         for a in PAIR_NAMES:
             for b in PAIR_NAMES:
@@ -94,15 +109,15 @@ ASSUMPTIONS = [
     "serial-like sync world: real SerialGateway + SyncTransport with a fake connection object; the pump is the real _poll_queue body run to idle after every event",
     "cause of an emitted line = the event whose processing returned or enqueued it (jobs tagged at add_job)",
     "node id 255 never presents itself as a sleeping node",
-    "histories bounded by the completed depth reported in coverage.completed_depth, 2 nodes, 2 children",
+    "histories bounded by the completed depth reported in coverage.completed_depth, 2 nodes, 2 children; node ids 1/2 and, in one configuration, 254/253",
 ]
 
 
 def run(tier):
     spec = C07Spec(tier)
     if tier == "quick":
-        return e1check.run_e1(spec, tier, depth=5, state_budget=30000, time_budget=400, rule=RULE, assumptions=ASSUMPTIONS)
-    return e1check.run_e1(spec, tier, depth=6, state_budget=120000, time_budget=900, rule=RULE, assumptions=ASSUMPTIONS)
+        return e1check.run_e1(spec, tier, depth=5, state_budget=42000, time_budget=600, rule=RULE, assumptions=ASSUMPTIONS)
+    return e1check.run_e1(spec, tier, depth=6, state_budget=150000, time_budget=1100, rule=RULE, assumptions=ASSUMPTIONS)
 
 
 def replay(data):
